@@ -56,6 +56,11 @@ CLAIMS = {
          "For generated histories a fault-free dry run counts the storage operations; generated positions (fraction of the count) x {once, permanent} x kind filter x thread filter are injected in a child process; every Ok commit's minimal durable image must open and equal its model, after the run the index equals the last successful (or the failed-but-published) commit, and a new writer continues; abort, panic or a stalled child is a violation.",
          "faults are io::Errors returned by Directory operations of SimDir; positions are sampled (24-40 per history), not all k; hang = no output and no CPU progress for 20 s",
          "DESIGN.md §3 C11"),
+ "C12": ("exploration",
+         "independent f32 BM25 evaluation from model-derived statistics, explain/score agreement, collector/K invariance and segmentation invariance (metamorphic) on generated corpora (proptest)",
+         "Generated corpora with field lengths on the edges of the 256 norm buckets and generated scoring queries (term, phrase, boolean, nested boost, const, dismax) are scored by tantivy and by an independent BM25 over statistics computed from the model documents and a frozen norm table; explain must equal the collected score, single-clause scores are bit-identical across collectors / K and, without deletes, across a merge into one segment.",
+         "relative tolerance 1e-5 per scoring clause for sums; boosted clauses compared with tolerance (different but legitimate rounding of the product in explain); explain of non-matching documents is not exercised",
+         "DESIGN.md §3 C12"),
  "C18": ("exploration",
          "model-based lifecycle testing of the writer lock (two-state free/held model) over generated call sequences on Ram/Mmap/Sim directories, thread races and competing child processes (proptest)",
          "Generated sequences of writer creations (valid and invalid), second handles, rollbacks, drops, wait_merging_threads, worker kills by injected I/O errors and creation races from 2-8 threads, plus two child processes competing on one MmapDirectory, are judged by a free/held model: creation succeeds iff free, a held lock rejects every attempt without disturbing the holder, and the lock follows the writer's lifetime.",
